@@ -6,7 +6,7 @@ Require Import SQV.Model.Str SQV.Model.Escape SQV.Model.Token SQV.Generated.Alph
   SQV.Model.Value SQV.Model.Expr SQV.Model.Cond SQV.Model.Stmt SQV.Model.Build SQV.Model.Writer
   SQV.Model.RenderExpr SQV.Model.RenderStmt SQV.Model.ExprTablesInst SQV.Model.Inject
   SQV.Model.Schema SQV.Model.RenderDDL
-  SQV.Spec.EngBoundary SQV.Proofs.WriterProofs SQV.Spec.EngScript SQV.Spec.CrateSeam.
+  SQV.Spec.EngBoundary SQV.Proofs.WriterProofs SQV.Spec.EngScript SQV.Spec.CrateSeam SQV.Proofs.StmtSafeProofs.
 Extraction Language OCaml.
 Set Extraction KeepSingleton.
 Extraction "model.ml"
@@ -17,6 +17,6 @@ Extraction "model.ml"
   build_cond build_onconflict into_condition api_between api_not_between api_like api_not_like api_is_in
   api_is_not_in api_in_tuples api_is_null api_is_not_null api_cast_as api_in_subquery api_exists
   to_simple_expr expr_into_condition inject_parameters
-  cte_from_select params_sep inline_sep crate_sep texts_params texts_inline pieces vals_of lex_texts clex_texts
+  cte_from_select query_plain params_sep inline_sep crate_sep texts_params texts_inline pieces vals_of lex_texts clex_texts
   rddl build_coldef build_index build_fk build_tablecreate build_tablealter build_tabledrop build_indexdrop
   build_fkdrop build_typecreate build_typedrop build_typealter build_extcreate build_extdrop type_text.
